@@ -121,13 +121,13 @@ fn generate_family(id: &str, run_seed: u64, _thorough: bool) -> Plan {
     let full = GeneralOpts { scale, rich_payloads: false, consumer_faults: true, publisher_faults: true, deletes: true, push: false, stalls: true, big_batches: true, single_drain_consumer_share: 10 };
     match id {
         "C01" => {
-            if pick < 58 {
+            if pick < 55 {
                 f_general(run_seed, &full)
-            } else if pick < 68 {
+            } else if pick < 65 {
                 f_general(run_seed, &GeneralOpts { push: true, ..full })
-            } else if pick < 72 {
+            } else if pick < 69 {
                 f_lease(run_seed, &LeaseOpts { modacks: true, limits: true })
-            } else if pick < 74 {
+            } else if pick < 71 {
                 // publishes inside a burst that fills the subscription's mailbox: every one of them arrives
                 f_burst_order(run_seed)
             } else if pick < 76 {
@@ -354,6 +354,9 @@ fn generate_family(id: &str, run_seed: u64, _thorough: bool) -> Plan {
                 // overlapping deletes of a topic, one of them slow, while the name is created again:
                 // what the listings say afterwards
                 f_retopic(run_seed)
+            } else if pick < 5 {
+                // a slow DeleteSubscription while the same name is created again, then both listings
+                f_redelete(run_seed)
             } else if pick < 84 {
                 f_listing(run_seed, mix2(run_seed, 0xB16) % 1000 < if _thorough { 20 } else { 12 })
             } else {
